@@ -1,6 +1,6 @@
 """C10 — running an accepted test never panics; runtime problems are error items."""
 import re
-from ..core import pan, terms, tab
+from ..core import ordrules, pan, terms, tab
 from ..core.facts import callee_name
 from ..core.prog import canon, Prog
 from . import panrules, pancheck
@@ -48,6 +48,8 @@ def error_items(chk, P):
             zd = [d for d in pi.decisions() if d[0] == "bool" and d[1] in ("Eq(right, 0)", "Ne(right, 0)")]
             r = terms.strip(pi.ret())
             shape = r[2].split("::")[-1] if r[0] == "agg" else canon(r)[:40]
+            if ordrules.ret_shape(pi) == "Err":
+                shape = "Err"      # `return Err(e)` / `Err(e)?`: an error leaves either way
             for v in (vs[0] if vs else ("*",)):
                 if v in ("Divide", "Reminder"):
                     iszero = None
